@@ -15,16 +15,21 @@ Lib == [ R  |-> << <<"in">>, <<"out">> >>,
 \* (handlers that record errors are left out: OnError then runs at the end of the nested AND of the outer dispatch)
 Pre == [ none |-> <<>>, status |-> << <<"status", 404>> >>, write |-> << <<"status", 202>>, <<"write", 3, "full">> >> ]
 Seqs(n) == UNION { [1..k -> Scripts] : k \in 0..n }
-Init == \E g \in Seqs(MaxG), inner \in Seqs(MaxInner) \ {<<>>}, p \in DOMAIN Pre : c = [g |-> g, inner |-> inner, pre |-> p]
+\* tail = 1: the re-dispatcher is a MIDDLEWARE of its route, the route's main handler comes after it in the outer chain and
+\* is never started (the cursor left behind by the nested dispatch is past it - the nested chain is at least as long)
+Init == \E g \in Seqs(MaxG), inner \in Seqs(MaxInner) \ {<<>>}, p \in DOMAIN Pre, t \in 0..1 :
+          /\ Len(inner) >= 1 + t
+          /\ c = [g |-> g, inner |-> inner, pre |-> p, tail |-> t]
 Next == FALSE /\ c' = c
 
 G == [i \in 1..Len(c.g) |-> Lib[c.g[i]]]
-B == Len(c.g) + 1
+B == Len(c.g) + 1 + c.tail
+TailH == IF c.tail = 1 THEN << Lib["N"] >> ELSE <<>>
 Redispatcher == << <<"in">> >> \o Pre[c.pre] \o << <<"redispatch", B>>, <<"out">> >>
-Chain == G \o <<Redispatcher>> \o G \o [i \in 1..Len(c.inner) |-> Lib[c.inner[i]]]
+Chain == G \o <<Redispatcher>> \o TailH \o G \o [i \in 1..Len(c.inner) |-> Lib[c.inner[i]]]
 OnErr == << <<"in">>, <<"status", 500>>, <<"out">> >>
 D == IdealDispatch(Chain, OnErr, None)
 RedispatchOK == OneCommit(D.w, D.wops)
-Emit == PrintT(ToJson([kind |-> "redispatch", chain |-> Chain, n |-> Len(Chain), g |-> Len(c.g), b |-> B, log |-> D.log, under |-> D.w.under,
+Emit == PrintT(ToJson([kind |-> "redispatch", chain |-> Chain, n |-> Len(Chain), g |-> Len(c.g), b |-> B, tail |-> c.tail, log |-> D.log, under |-> D.w.under,
                        escaped |-> FALSE, hooked |-> FALSE, checkw |-> TRUE, onerror |-> OnErr]))
 =============================================================================
